@@ -3,6 +3,9 @@ package wsclient
 import (
 	"encoding/json"
 	"errors"
+	"runtime"
+	"strconv"
+	"strings"
 	"sync"
 	"sync/atomic"
 )
@@ -39,6 +42,7 @@ type Socket struct {
 
 	entered int64 // number of ReadJSON calls so far
 	writes  int64
+	reader  int64 // id of the goroutine that calls ReadJSON (the one running ServeJSONSocket)
 
 	mu          sync.Mutex
 	meta        []MsgMeta
@@ -116,7 +120,26 @@ func (s *Socket) Entered() int { return int(atomic.LoadInt64(&s.entered)) }
 // Processed reports whether the server has finished handling message k.
 func (s *Socket) Processed(k int) bool { return s.Entered() >= k+2 }
 
+// goid returns the id of the calling goroutine. It is used only to tell
+// envelopes written by the goroutine that runs ServeJSONSocket (synchronous
+// answers to the message being handled) from envelopes written by
+// computations.
+func goid() int64 {
+	var buf [64]byte
+	n := runtime.Stack(buf[:], false)
+	f := strings.Fields(string(buf[:n]))
+	if len(f) < 2 {
+		return -1
+	}
+	id, err := strconv.ParseInt(f[1], 10, 64)
+	if err != nil {
+		return -1
+	}
+	return id
+}
+
 func (s *Socket) ReadJSON(v interface{}) error {
+	atomic.StoreInt64(&s.reader, goid())
 	k := int(atomic.LoadInt64(&s.entered))
 	// the log entry comes first: the marker is on the conservative side
 	// (everything logged after it really happened after handle(k-1) returned)
@@ -166,7 +189,7 @@ func (s *Socket) WriteJSON(v interface{}) error {
 	closed := s.closed
 	fail := s.failWriteAt != 0 && n == s.failWriteAt
 	s.mu.Unlock()
-	ev := Event{Kind: EvWrite, ID: id, Type: typ, Msg: env["message"]}
+	ev := Event{Kind: EvWrite, ID: id, Type: typ, Msg: env["message"], Sync: goid() == atomic.LoadInt64(&s.reader)}
 	if _, ok := env["message"]; ok {
 		ev.N = 1 // the envelope has a message member
 	}
